@@ -755,6 +755,13 @@ func (ex *Exec) callSSA(caller *Frame, callpos token.Pos, fn *ssa.Function, args
 		ex.unsupported("uninstantiated generic function %s", fn)
 	}
 	ex.res.Funcs[fn] = true
+	if traceCalls && fn.Pkg != nil && strings.HasPrefix(fn.Pkg.Pkg.Path(), "github.com/ipni/go-libipni") {
+		tid := -1
+		if ex.cur != nil {
+			tid = ex.cur.id
+		}
+		fmt.Fprintf(os.Stderr, "TRACE t%d %s\n", tid, fn)
+	}
 	fr.initFrame = fn.Synthetic != "" && fn.Name() == "init" || strings.HasPrefix(fn.Name(), "init#")
 	fr.env = make(map[ssa.Value]Value, 16)
 	fr.block = fn.Blocks[0]
@@ -875,6 +882,8 @@ func (fr *Frame) mergedPhi(phi *ssa.Phi) bool {
 	}
 	return false
 }
+
+var traceCalls = os.Getenv("GOSYM_TRACE") != ""
 
 type continuation int
 
